@@ -37,6 +37,10 @@ pub struct SourceScript {
     pub chunks: Vec<u32>,
     pub eof_at: Option<u64>,
     pub faults: Vec<(u64, FaultKind)>,
+    /// byte positions at which the reader answers one read with Ok(0) and then carries on (a source that is
+    /// refilled in place, e.g. `Take` with a new limit: "end of this frame's input", not end of data)
+    #[serde(default)]
+    pub pauses: Vec<u64>,
 }
 
 impl SourceScript {
@@ -44,7 +48,7 @@ impl SourceScript {
         SourceScript::default()
     }
     pub fn is_plain(&self) -> bool {
-        self.chunks.is_empty() && self.eof_at.is_none() && self.faults.is_empty()
+        self.chunks.is_empty() && self.eof_at.is_none() && self.faults.is_empty() && self.pauses.is_empty()
     }
 }
 
@@ -66,6 +70,8 @@ pub struct SimReader<'a> {
     chunk_idx: usize,
     faults: Vec<(u64, FaultKind)>,
     fault_idx: usize,
+    pauses: Vec<u64>,
+    pause_idx: usize,
     pub stats: ReaderStats,
 }
 
@@ -85,6 +91,12 @@ impl<'a> SimReader<'a> {
             chunk_idx: 0,
             faults,
             fault_idx: 0,
+            pauses: {
+                let mut p = script.pauses.clone();
+                p.sort_unstable();
+                p
+            },
+            pause_idx: 0,
             stats: ReaderStats::default(),
         }
     }
@@ -121,6 +133,15 @@ impl Read for SimReader<'_> {
             }
             next_fault_at = at as usize;
         }
+        let mut next_pause_at = usize::MAX;
+        if self.pause_idx < self.pauses.len() {
+            let at = self.pauses[self.pause_idx] as usize;
+            if at <= self.pos {
+                self.pause_idx += 1;
+                return Ok(0);
+            }
+            next_pause_at = at;
+        }
         if self.pos >= self.limit {
             if self.stats.eof_hits > 0 {
                 self.stats.reads_after_eof += 1;
@@ -136,6 +157,9 @@ impl Read for SimReader<'_> {
         }
         if next_fault_at != usize::MAX {
             n = n.min(next_fault_at - self.pos);
+        }
+        if next_pause_at != usize::MAX {
+            n = n.min(next_pause_at - self.pos);
         }
         if n < buf.len() {
             self.stats.short_reads += 1;
